@@ -24,9 +24,16 @@ use serdect::serde::{
 /// Wrapper type for odd integers.
 ///
 /// These are frequently used in cryptography, e.g. as a modulus.
-#[derive(Clone, Copy, Debug, Default, Eq, Hash, PartialEq, PartialOrd, Ord)]
+#[derive(Clone, Copy, Debug, Eq, Hash, PartialEq, PartialOrd, Ord)]
 #[repr(transparent)]
 pub struct Odd<T>(pub(crate) T);
+
+impl<T: num_traits::One> Default for Odd<T> {
+    /// The default odd value is one (zero is not odd).
+    fn default() -> Self {
+        Self(T::one())
+    }
+}
 
 impl<T> Odd<T> {
     /// Create a new odd integer.
